@@ -51,6 +51,9 @@ C["C07"] = dict(
 C["C09"] = dict(
     text="10 histories on a real pair, every schedule with <= 2 (quick) / <= 3 (thorough) deviations: partial read then close; close racing with arriving data; flush after the peer closed; pinned and peeked data never released; socket fallback mixed with shared memory; queue-full retries with two streams on a 1-element queue; read buffer reused as write buffer in both directions; a response arriving after the client closed the stream; callback mode with partial consumption and peer close; Close inside OnData. Each execution is completed by closing every stream on both ends (including streams only implicitly accepted) and run to quiescence; oracle: free count == capacity in every class and GetMetrics().AllInUsedShareMemoryInBytes == 0",
     note=NOTE_B, technique=TECH_B, design="DESIGN.md section 4 C09")
+C["C11"] = dict(
+    text="10 scenarios on a real pair under VIRTUAL time with racy timers (an armed timer may fire as a costed alternative at any step): ReadBytes released by data in two messages, by a read deadline racing with the arrival, by a local Close, by the peer's close, by Session.Close, by the death of the peer process; Flush into a 1-element queue whose consumer stopped (plain, with a write deadline); AcceptStream released by Session.Close; fallback Flush racing with Session.Close; every schedule with <= 2 (quick) / <= 3 (thorough) deviations; oracles: every call returns (a call that does not return is a deadlock / horizon failure of the execution), ErrTimeout never before the virtual deadline, the right error class per releasing event, completion within the code's own time bound",
+    note=NOTE_B + "; time is virtual: real-time bounds are not checked; a Stream.Close concurrent with a Flush of the same stream is outside C11 (see DESIGN.md section 9)", technique=TECH_B, design="DESIGN.md section 4 C11")
 NA = {}
 m = {
     "version": 1,
